@@ -10,7 +10,8 @@ CELLS = ['cell2', 'ny-000']
 ENVIRONMENTS = ['dev', 'qa', 'uat', 'prod']
 
 # host name -> address.  Two names share an address (the code de-duplicates);
-# literals resolve to themselves.
+# literals are not looked up: the resolver parses them as inet_aton does and
+# answers in canonical dotted-quad form (zero-padded octets are octal).
 RESOLVER = {
     'gw1.example.com': '10.20.0.1',
     'gw2.example.com': '10.20.0.2',
@@ -18,6 +19,8 @@ RESOLVER = {
     'monitor': '172.16.5.9',
 }
 PASSTHROUGH_HOSTS = sorted(RESOLVER) + ['10.20.0.2', '203.0.113.77']
+# IPv4 literals as people write them in manifests (zero-padded octets); the schema's item is a string
+PADDED_LITERALS = ['10.20.0.002', '203.000.113.077', '010.1.2.3', '172.016.005.009']
 UNRESOLVABLE = 'gone.example.com'
 
 FOREIGN_VIPS = ['192.168.200.%d' % i for i in range(1, 6)]
@@ -79,6 +82,8 @@ def gen_spec(rng, proid, task, tier='quick', p_unresolvable=0.0):
         spec['ephemeral_ports'] = eph
     if rng.random() < 0.55:
         hosts = [rng.choice(PASSTHROUGH_HOSTS) for _ in range(rng.randint(0, 3))]
+        if rng.random() < 0.3:
+            hosts.insert(rng.randint(0, len(hosts)), rng.choice(PADDED_LITERALS))
         if rng.random() < p_unresolvable:
             hosts.insert(rng.randint(0, len(hosts)), UNRESOLVABLE)
         spec['passthrough'] = hosts
@@ -184,7 +189,8 @@ def gen_history(rng, tier='quick', p_unresolvable=0.0):
                     op['cut'] = ['kill_at', 'clt_del_request:done']
                     prefer_start = True
                 else:
-                    op['cut'] = [rng.choice(['kill', 'error', 'error2', 'ioerror']), round(rng.random(), 3)]
+                    op['cut'] = [rng.choice(['kill', 'kill', 'error', 'error2', 'ioerror', 'ioerror_reply']),
+                                 round(rng.random(), 3)]
             else:
                 op['repeat'] = rng.choice([0, 0, 1, 1, 2])
                 stage[i] = 'finished'
